@@ -76,7 +76,7 @@ class Execution:
         self.w = None
         self.tree = None
         self.steps = 0
-        self.boundary_info = {}
+        self.extra = collections.Counter()
 
     def violate(self, sig, msg, **detail):
         self.violations.append({"sig": sig, "msg": msg, "detail": detail})
@@ -86,6 +86,9 @@ class Execution:
 
     def flag(self, what):
         self.flags.add(what)
+
+    def extra_count(self, what, n=1):
+        self.extra[what] += n
 
     # ----------------------------------------------------------------------------------
     def run(self):
@@ -256,6 +259,7 @@ class Result:
         self.transitions |= x.transitions
         self.outcomes.add(x.outcome())
         self.notes.update(x.notes)
+        self.extra.update(x.extra)
         for f in x.flags:
             self.flags[f] += 1
         if x.status == "exception" and len(self.exceptions) < 3:
@@ -294,6 +298,10 @@ def explore(
     audit_every=16,
     drive=None,
     on_execution=None,
+    start=None,
+    solo=False,
+    kinds=None,
+    parent_points=None,
 ):
     """Deviation-bounded DFS over the choice points of the world `desc` (iteratively by
     depth of the prefix). Every execution runs the real code from the initial state."""
@@ -328,19 +336,22 @@ def explore(
             i = prefix[-1][0]
             if pts[: i + 1] != parent_points[: i + 1]:
                 res.prefix_mismatches += 1
-        if len(prefix) >= bound:
+        if len(prefix) >= bound or solo:
             return
         last = prefix[-1][0] if prefix else -1
         for i in range(last + 1, len(pts)):
             kind, label, n = pts[i]
+            if kinds is not None and kind not in kinds:
+                continue
             for alt in range(1, n):
                 if alt_filter is not None and not alt_filter(kind, label, alt, i, pts):
                     continue
                 rec(prefix + [(i, alt)], pts)
 
-    res.configs += 1
-    rec([], None)
-    if completed[0] > 0:
+    if not start:
+        res.configs += 1
+    rec([tuple(p) for p in (start or [])], parent_points)
+    if completed[0] > 0 and not start:
         res.configs_completed += 1
     res.wall += time.time() - t0
     return res
